@@ -398,7 +398,20 @@ def r5_rank(ctx):
                       construct=cons, instance=g.cfg.name)
 
 
+def r6_files_read_afresh(ctx):
+    """'whatever was loaded or fitted earlier in the process': a loaded model is a function of the file as it is now - nothing between the
+    file and the model may keep an earlier reading (memoised parsers, module-level tables of already-loaded settings)."""
+    from ._shared import memoised_readers
+    ctx.rule("C12.R6", "model / settings files are read afresh at each load (no memoised reader of the file system in the package)", 1)
+    hits = memoised_readers(ctx)
+    for f, d, c in hits:
+        ctx.violation("C12.R6", f, d, f"`@{U(d)[:40]}` memoises `{f.name}`, which reads the file system (`{U(c)[:50]}`): a model saved again to the same path in the same process is loaded "
+                      "from the first reading (whatever the key: a modification time has a granularity)")
+    ctx.ok("C12.R6", ("leaspy", "<package>"), None, f"{len(list(ctx.ix.iter_funcs()))} functions scanned: no memoised function reads the file system", construct="package-wide scan")
+
+
 def rules(ctx):
+    r6_files_read_afresh(ctx)
     r1_name(ctx)
     r2_hyperparameters(ctx)
     r3_mode_reset(ctx)
@@ -413,6 +426,7 @@ def rules(ctx):
 
 MB = "src/leaspy/models/base.py"
 VARIANTS = [
+    V("settings-file-memoised", "src/leaspy/models/settings.py", "class ModelSettings:", "import functools\n\n\n@functools.lru_cache(maxsize=None)\ndef _parsed(path):\n    with open(path) as fp:\n        return json.load(fp)\n\n\nclass ModelSettings:", "C12.R6"),
     V("name-from-instance", MB, "            \"name\": name,\n            **instance_name,\n", "            \"name\": self.name,\n", "C12.R1"),
     V("kind-table-swapped", "src/leaspy/models/factory.py", "        ModelName.LINEAR: LinearModel,\n", "        ModelName.LINEAR: LogisticModel,\n", "C12.R1"),
     V("nb-events-not-saved", "src/leaspy/models/joint.py", "        dict_params[\"nb_events\"] = self.nb_events\n", "", "C12.R2"),
